@@ -439,6 +439,22 @@ def check_generator(ctx, gen: FuncInfo, prop):
                     coef[role or "other"] += k_
                 okg = c0 == 0 and coef["ends"] == 1 and coef["starts"] == -1 and coef["min"] == -1 and coef["other"] == 0
         ctx.check(okg, f"{prop}.d CLIP", "last-interval|guard", ev.loc(), "the last interval is moved exactly when it is shorter than min_length: ends[-1] - starts[-1] < min_length", found=shown[:160], expected="ends[-1] - starts[-1] - min_length < 0")
+        # the elements compared and rewritten are the LAST ones (the engine's list elements are position-free: read from the syntax)
+        ifs = [n_ for n_ in ast.walk(gen.node) if isinstance(n_, ast.If) and any(x is ev.node for x in ast.walk(n_))]
+        if ifs:
+            inner_if = min(ifs, key=lambda n_: (n_.end_lineno - n_.lineno))
+            subs = [x for x in ast.walk(inner_if) if isinstance(x, ast.Subscript) and isinstance(x.value, ast.Name)]
+            def is_last(x):
+                sl_ = x.slice
+                return isinstance(sl_, ast.UnaryOp) and isinstance(sl_.op, ast.USub) and isinstance(sl_.operand, ast.Constant) and sl_.operand.value == 1
+            def const_index(x):
+                sl_ = x.slice
+                if isinstance(sl_, ast.Constant) and isinstance(sl_.value, int):
+                    return True
+                return isinstance(sl_, ast.UnaryOp) and isinstance(sl_.operand, ast.Constant) and isinstance(sl_.operand.value, int)
+
+            wrong = [x for x in subs if const_index(x) and not is_last(x)]
+            ctx.check(not wrong, f"{prop}.d CLIP", "last-interval|positions", ev.loc(), "the fix-up tests and rewrites the last start / end of the two lists (no constant position other than -1)", found=[ast.unparse(x) for x in wrong][:3] or "no other constant position", expected="[-1]", nontrivial=False)
     # all shifts but the last leave a full-length interval inside the data: the number of shifts is ceil((n - len)/step)
     # with the same step the positions use, so (n_steps - 1)*step < n - len, and the positions start at shift 0
     for ce in comps:
